@@ -15,15 +15,15 @@ Every request is executed twice; a stride of the requests of each chunk is
 executed a third time on a fresh worker process.
 """
 import random
+import re
 import zlib
 
-from .. import core, driver
+from .. import core, driver, proc
 
 PID = "C15"
 
 RULE = ("per simulator: leading 16-bit patterns (thorough: all 65536; quick: a seeded stratified sample that contains "
-        "every first byte x every top-2-bit class of the second byte and every second byte x every top-2-bit class of "
-        "the first byte) x combos (operand tail 00../ff../fixed pseudo-random, register state reset/all-ones/"
+        "every first byte and every second byte at least once, ~512 patterns) x combos (operand tail 00../ff../fixed pseudo-random, register state reset/all-ones/"
         "pseudo-random/SP-and-PC-at-the-edges, display off/on), one step each, executed twice in one worker and for a "
         "stride again on a fresh worker. distinct_nontrivial = distinct (simulator, opcode class byte, combo) whose step "
         "returned control and was compared with its repetition.")
@@ -84,7 +84,7 @@ SPARSE_COMBOS = [4, 5, 6]           # applied to the stratified sample only
 STEP_CPU_S = 2
 FRESH_STRIDE = 24
 MAX_HANGS_PER_CHUNK = 6
-MAX_DEATHS_PER_CLASS = 1     # per (opcode class byte, combo) inside one chunk; the rest of the class is skipped
+MAX_DEATHS_PER_CLASS = 2     # per (opcode class byte, combo) inside one chunk; the rest of the class is skipped
 
 
 def cbyte(cpu, pat):
@@ -159,10 +159,53 @@ def crash_key(cpu, ci):
     return "%s/%s" % (cpu, ci["sig"])
 
 
+_FAST = None
+_SYM = None
+_KEYCACHE = {}
+RAW_RE = re.compile(r"#0 0x[0-9a-f]+\s+\((\S+?)\+(0x[0-9a-f]+)\)")
+UB_RE = re.compile(r"(\S+?:\d+):\d+: runtime error")
+
+
+def drivers():
+    """(fast worker whose sanitizer reports are not symbolised, symbolising worker used once per distinct crash site)"""
+    global _FAST, _SYM
+    if _FAST is None:
+        env = {"ASAN_OPTIONS": proc.ASAN_ENV.replace("symbolize=1", "symbolize=0"),
+               "UBSAN_OPTIONS": proc.UBSAN_ENV + ":symbolize=0"}
+        _FAST = driver.Vdrv(core.ARTS["san"]["vdrv"], timeout_cpu=STEP_CPU_S, env_extra=env)
+        _SYM = driver.Vdrv(core.ARTS["san"]["vdrv"], timeout_cpu=STEP_CPU_S)
+    return _FAST, _SYM
+
+
+def resolve_crash(cpu, pat, combo, e, ci):
+    """Key of a death seen on the fast worker; sanitizer deaths are symbolised by re-executing the case once per
+    distinct raw crash site (kind + frame-0 offset, or UBSan file:line)."""
+    if ci["kind"] != "san":
+        return crash_key(cpu, ci), ci
+    m = UB_RE.search(e.stderr) or RAW_RE.search(e.stderr)
+    raw = None if m is None else (cpu, ci["sig"].split("/")[0], m.group(1) if m.re is UB_RE else m.group(2))
+    if m is not None and raw in _KEYCACHE:
+        return _KEYCACHE[raw], ci
+    sym = drivers()[1]
+    sym.close()
+    try:
+        run_case(sym, cpu, pat, combo)
+    except driver.Died as e2:
+        ci2 = core.crash_info(e2)
+        sym.close()
+        if ci2["kind"] == "san":
+            k = crash_key(cpu, ci2)
+            if m is not None:
+                _KEYCACHE[raw] = k
+            return k, ci2
+    sym.close()
+    return None, ci      # the death did not repeat on the symbolising worker
+
+
 def chunk_item(item):
     """item = (cpu, [(pat, combo), ...]); returns aggregated observations."""
     cpu, cases = item
-    vd = core.get_vdrv(STEP_CPU_S)
+    vd = drivers()[0]
     vd.close()                       # always start on a fresh worker (static state of earlier chunks)
     vd.set_timeout(STEP_CPU_S)
     out = {"cpu": cpu, "n": 0, "requests": 0, "events": {}, "inconc": [], "classes": set(), "outcomes": set(),
@@ -200,9 +243,16 @@ def chunk_item(item):
                 if ci["kind"] in ("inconclusive", "lost"):
                     out["inconc"].append((ci["sig"], pat, combo))
                 else:
-                    if ci["kind"] == "hang":
-                        hangs += 1
-                    event(crash_key(cpu, ci), pat, combo,
+                    if ci["kind"] == "hang" or "rss-limit" in ci["sig"] or "oom" in ci["sig"]:
+                        hangs += 1       # slow deaths (2 CPU-s / 3 GB each): bounded per chunk
+                        ckey = crash_key(cpu, ci)
+                    else:
+                        ckey, ci = resolve_crash(cpu, pat, combo, e, ci)
+                    if ckey is None:
+                        event("%s/nondeterministic" % cpu, pat, combo,
+                              "%s: bytes %04x combo %d: died (%s) but did not when executed again on a fresh worker" % (cpu, pat, combo, ci["sig"]))
+                        break
+                    event(ckey, pat, combo,
                           "%s: bytes %04x combo %d (%s): %s%s" % (cpu, pat, combo, "/".join(map(str, COMBOS[combo])), ci["sig"],
                                                                 " (only when repeated)" if rep else ""))
                     if rep:
@@ -269,14 +319,13 @@ def chunk_item(item):
 
 # ------------------------------------------------------------------ domain
 
-def stratified(rng):
+def stratified(rng, per=1):
+    """every first byte x `per` second bytes and every second byte x `per` first bytes"""
     pats = set()
-    for b0 in range(256):
-        for hi in range(4):
-            pats.add((b0 << 8) | (hi << 6) | rng.getrandbits(6))
-    for b1 in range(256):
-        for hi in range(4):
-            pats.add((((hi << 6) | rng.getrandbits(6)) << 8) | b1)
+    for b in range(256):
+        for k in range(per):
+            pats.add((b << 8) | rng.getrandbits(8))
+            pats.add((rng.getrandbits(8) << 8) | b)
     return sorted(pats)
 
 
@@ -285,7 +334,7 @@ def build_items(run, sims):
     items = []
     chunk = 512
     for cpu in sims:
-        strat = stratified(random.Random(run.rng.getrandbits(32)))
+        strat = stratified(random.Random(run.rng.getrandbits(32)), 1 if quick else 4)
         cases = []
         if quick:
             for c in QUICK_COMBOS:
@@ -383,7 +432,7 @@ def main(run):
         "exit() on mips/riscv/ebpf with a byte stored at 0xffffffff (or exit code 0) is the documented break_io sentinel and is masked",
         "the instruction image is placed at pc, 2*pc and 8*pc; memory elsewhere is zero except the page wrap copy at 0",
         "PC-after-step versus disassembler length and 'writes above the architectural address space inside the Memory image' are NOT judged",
-        "a chunk stops executing after %d hangs, and the remaining patterns of an (opcode class byte, combo) are skipped after the worker died once in it inside a chunk (crash reports cost 0.3 s each); both counted as skipped_after_hangs" % MAX_HANGS_PER_CHUNK,
+        "a chunk stops executing after %d hangs, and the remaining patterns of an (opcode class byte, combo) are skipped after the worker died twice in it inside a chunk (deaths cost 0.04-0.3 s each); both counted as skipped_after_hangs" % MAX_HANGS_PER_CHUNK,
         "the value returned by run() is recorded (returned_rc) but not judged: riscv returns -2 for some encodings",
         "known findings are keyed simulator/kind/function without instance catalogues: a further defect with the same key is not told apart",
     ]
@@ -400,7 +449,6 @@ def replay_keys(run, cases):
     for c in cases:
         keys = set()
         try:
-            core._VD = None
             r = chunk_item((c["cpu"], [(int(c["pattern"]), int(c["combo"]))]))
             keys = set(re_key(k) for k in r["events"])
         except Exception:
